@@ -25,7 +25,7 @@ CHECKS = {
         design="DESIGN.md §4 C02",
     ),
     "C03": dict(
-        rules="R03.1-R03.6 (+R20.1 bound via C20)",
+        rules="R03.1-R03.7 (+R20.1 bound via C20)",
         what="order of the re-processing pipeline in reprocess_nodes and of the propagation loop; type snapshots read every __eq__ field; component-coverage matrix of the astmerge / deps / astdiff type visitors; the follow-imports walk queues every module found changed (never filtered by the set the finder marks); every daemon check response computes its status by main()'s predicate",
         quant="edit histories checked after every step",
         technique="CFG must-pass-through ordering, sibling cross-check (__eq__ fields vs snapshot reads), component-coverage matrix",
